@@ -485,11 +485,86 @@ fn forced_case(case: u64, rng: &mut Rng, rep: &mut Report) {
     }
 }
 
+
+/// Policy-driven merges (of uncommitted and of committed segments) while adds, deletes, commits
+/// and rollbacks proceed: the searcher must equal the sequential model at every commit-like
+/// point and at random points in between (a merge never changes what is published).
+fn policy_case(case: u64, rng: &mut Rng, rep: &mut Report) {
+    let cfg = ExecCfg {
+        threads: *rng.pick(&[1usize, 1, 2]),
+        merge_policy: rng.chance(3, 4),
+        sort: None,
+        budget_per_thread: 15_000_000,
+    };
+    let mon = MonDir::new(MonCfg { monitors: true, ..Default::default() });
+    let mut ex = match Exec::create(Box::new(mon.clone()), cfg.clone(), Some(mon.clone())) {
+        Ok(e) => e,
+        Err(e) => {
+            rep.violation("api-error:create", json!(e));
+            return;
+        }
+    };
+    rep.eval();
+    let mut gcfg = GenCfg::standard(rng.urange(15, 60)).no_delete_all();
+    gcfg.groups = 3; // few keys: deletes and re-adds of the same key are frequent
+    gcfg.w[1] = 14; // delete_term
+    gcfg.w[5] = 8; // commit
+    gcfg.w[7] = 4; // rollback
+    gcfg.w[8] = 2; // explicit merge
+    gcfg.w[11] = if rng.chance(1, 4) { 1 } else { 0 }; // cutter
+    gcfg.w[12] = 5; // policy switches
+    gcfg.w[13] = 8; // prepare+drop: cuts uncommitted segments
+    let mut g = HistGen::new();
+    let ops = g.history(rng, &gcfg);
+    let mut failed_at = None;
+    for (i, op) in ops.iter().enumerate() {
+        ex.step(op);
+        rep.count(&format!("policy-op:{}", op.kind()), 1);
+        let observe = matches!(op, Op::Commit | Op::PrepCommit { .. } | Op::Rollback | Op::Reopen { .. })
+            || i + 1 == ops.len()
+            || rng.chance(1, 4);
+        if observe {
+            for (sig, d) in ex.check_committed(true) {
+                ex.problems.push((sig, json!({"after_op_index": i, "after": op.kind(), "detail": d})));
+            }
+        }
+        let mut keep = vec![];
+        for (sig, d) in ex.problems.drain(..) {
+            if !is_known("C02", &sig) {
+                keep.push((sig, d));
+            }
+        }
+        if !keep.is_empty() {
+            ex.problems = keep;
+            failed_at = Some(i);
+            break;
+        }
+    }
+    ex.drain_merges();
+    let merge_ops = mon.log().iter().filter(|e| e.role == "merge" && e.kind == OpKind::Terminate).count();
+    rep.count("policy_merge_files_terminated", merge_ops as u64);
+    for (sig, d) in ex.problems.drain(..) {
+        rep.violation(
+            format!("policy:{sig}"),
+            json!({"case": case, "cfg": cfg.describe(), "detail": d,
+                   "history": ops.iter().take(failed_at.map(|i| i + 1).unwrap_or(ops.len())).map(|o| o.brief()).collect::<Vec<_>>()}),
+        );
+    }
+    for v in mon.take_violations() {
+        rep.violation(format!("policy:{}", v.sig), json!({"case": case, "detail": v.detail}));
+    }
+    if merge_ops > 0 {
+        let kinds: BTreeSet<&str> = ops.iter().map(|o| o.kind()).collect();
+        rep.nontrivial(format!("policy:t{}:{}", cfg.threads, kinds.into_iter().collect::<Vec<_>>().join(",")));
+    }
+}
+
 fn main() {
     let ctx = Ctx::from_env("C04", "translation_validation");
     let mut rep = run_cases(&ctx, "explicit", ctx.scale(300, 20000) as u64, explicit_case);
     rep.merge(run_cases(&ctx, "merge_indices", ctx.scale(60, 3000) as u64, merge_indices_case));
     rep.merge(run_cases(&ctx, "forced", ctx.scale(150, 8000) as u64, forced_case));
+    rep.merge(run_cases(&ctx, "policy", ctx.scale(200, 10000) as u64, policy_case));
     let programs = rep.counters.get("merges_validated").copied().unwrap_or(0)
         + rep.counters.get("merge_indices_validated").copied().unwrap_or(0);
     let dis = rep.counters.get("disagreements").copied().unwrap_or(0);
